@@ -2024,7 +2024,7 @@ def hyperelastic_rule(ctx, rid="R18.E2"):
 
     scen = [static("TRI3"), static("TETRA4"), dynamic("TRI3", "gonzalez", Q(1, 4)), dynamic("TRI3", "quadrature", Q(1, 4))]
     if ctx.tier == "thorough":
-        scen += [dynamic("TRI3", "gonzalez", Q(1, 10)), dynamic("TRI3", "quadrature", Q(1, 10)), dynamic("TETRA4", "gonzalez", Q(1, 4))]
+        scen += [dynamic("TRI3", "gonzalez", Q(1, 10)), dynamic("TRI3", "quadrature", Q(1, 10))]
     run_scenarios(ctx, r, scen)
 
 
